@@ -27,13 +27,17 @@ class _Tx(ast.NodeTransformer):
 _orig = M.SourceFileLoader.get_code
 
 
+REWRITE_NUMPY = [True]
+
+
 def _get_code(self, fullname):
     path = self.get_filename(fullname)
     if "/bempp_cl/" in path and path.endswith(".py"):
         src = self.get_data(path)
         LOADED[path] = hashlib.sha256(src).hexdigest()
         tree = ast.parse(src, path)
-        tree = _Tx().visit(tree)
+        if REWRITE_NUMPY[0]:
+            tree = _Tx().visit(tree)
         for suffix, mut in MUTATORS.items():
             if path.endswith(suffix):
                 tree = mut(tree)
